@@ -1,6 +1,7 @@
 import Verif.Impl.Report
 import Verif.Impl.Labels
 import Verif.Generated.Misc
+import Driver.Cpu
 import Driver.Text
 /-  `report`, `idx`, `idxenvelope` verbs (properties C14 and C15). -/
 namespace Driver
@@ -52,12 +53,34 @@ def labelsOfFile (fileS : String) (start n : Nat) : Option String :=
           | ls => some (s!"{i}:" ++ ",".intercalate (ls.map String.ofList))))
   | _ => none
 
+/-- The accesses of every program byte in the specification's own run of the program (6502, loaded at `start`, run from
+    its first byte to the halting BRK on flat memory): fetches + reads + writes made while the program ran — the write
+    that loaded the program is not among them.  `none`: the specification does not define the run. -/
+def specProgramCounts (start : Nat) (code : List Nat) : Option (List Nat) :=
+  let mem0 : List (Addr × Byte) := code.zipIdx.map fun (b, i) => (BitVec.ofNat 16 (start + i), BitVec.ofNat 8 b)
+  let bus0 : SBus := { mem := mem0.reverse, trace := #[], budget := 100000 }
+  match specRun CpuModel.m6502 5000 ⟨BitVec.ofNat 16 start, 0xFF, 0, 0, 0, 0⟩ bus0 0 with
+  | none => none
+  | some (_, b, _) =>
+    let n := code.length
+    let arr := b.trace.foldl (fun (acc : Array Nat) e =>
+      let a := e.addr.toNat
+      if start ≤ a && a < start + n then acc.modify (a - start) (· + 1) else acc) (List.replicate n 0).toArray
+    some arr.toList
+
 def handleReport (line : String) : String :=
   match line.splitOn " => " with
   | [req, res] =>
     -- end-to-end requests carry the label file itself as a fifth section: what the request's label section says
     -- must be what the file defines under the grammar of its format (a request that is not even that is malformed)
-    let secs := req.splitOn " | "
+    let secs0 := req.splitOn " | "
+    -- a sixth section `prog:<hex>` (end-to-end requests): the program itself, for the absolute access counts
+    let progS : Option String := if secs0.length == 6 then secs0[5]? else none
+    let secs := if secs0.length == 6 then secs0.take 5 else secs0
+    let progBad := match progS with
+      | some p => !(p.startsWith "prog:") || (unhex (p.drop 5).toString).isNone
+      | none => false
+    if progBad then "bad" else
     let fileOk : Bool := match secs with
       | [hd, rawsS, _, labS, fileS] =>
         fileS == "-" ||
@@ -145,6 +168,18 @@ def handleReport (line : String) : String :=
                  | some c => if raws.contains c then [] else [s!"C15:threshold-not-observed:cut={c}:p={prcnt}"]
                  | none => []) ++
                 (if !shapeOk then ["C14:lines"] else []) ++ (if !contentOk then ["C14:content"] else []) ++
+                -- the number of accesses on an address line is the number of fetches, reads and writes of that byte in
+                -- the specification's own run of the program (whatever the options of the command: trap script, dump)
+                (match progS.bind (fun p => unhex (p.drop 5).toString) with
+                 | some code =>
+                   if code.length != n then ["C14:absolute-counts:program-length"] else
+                   (match specProgramCounts start code with
+                    | some cnts =>
+                      (match ((addrLines.zip cnts).zipIdx.find? fun (((_, _, _, num), c), _) => num != c) with
+                       | some (((_, _, _, num), c), i) => [s!"C14:absolute-counts:offset={i}:shown={num}:ran={c}"]
+                       | none => [])
+                    | none => [])
+                 | none => []) ++
                 (if !upward then ["C15:upward"] else []) ++ (if !topOk then [s!"C15:top:p={prcnt}:flagged={rankedFlagged}:need={need}"] else []) ++
                 (if !allOk then ["C15:all"] else [])
           let ds := if d.isEmpty then "agree" else "DIFF " ++ ",".intercalate d
